@@ -134,7 +134,8 @@ def rule_CHOKE(ctx):
     if not lines:
         raise AnalysisError('get_dtype: sized Dtype._create call not found')
     calls = min(lines)
-    allowed = [i for i in own_walk(gd.node) if isinstance(i, ast.If) and 'not in self.allowed_lengths' in ast.unparse(i.test) and G.raises_in(i.body)]
+    allowed = [i for i in own_walk(gd.node) if isinstance(i, ast.If) and 'not in self.allowed_lengths' in ast.unparse(G.expand(gd, i.test))
+               and (G.raises_in(i.body) or any(isinstance(y, ast.Raise) for b in i.body for y in ast.walk(b)))]
     if not allowed or allowed[0].lineno > calls:
         r.fail(gd.key, 'allowed-length test', 'a length outside allowed_lengths must be rejected before the Dtype is created', loc=gd.loc())
     else:
